@@ -273,16 +273,21 @@ func (c *Clients) runStream(cc *plan.ClientConn, cr *ConnRecord, srv plan.Server
 		return
 	}
 	var conn net.Conn = raw
-	if srv.Proto == "tls" {
+	if srv.Proto == "tls" && cc.ClientCert != "plain" {
 		tc := tls.Client(raw, c.clientTLS(cc, ProxyServerName))
 		raw.SetDeadline(time.Now().Add(5 * time.Second))
 		if err := tc.Handshake(); err != nil {
 			cr.DialErr = "tls: " + err.Error()
-			raw.Close()
-			return
+			if !cc.PlainAfterFail {
+				raw.Close()
+				return
+			}
+			// carry on in the clear on the same connection
+			raw.SetDeadline(time.Time{})
+		} else {
+			raw.SetDeadline(time.Time{})
+			conn = tc
 		}
-		raw.SetDeadline(time.Time{})
-		conn = tc
 	}
 	cr.OpenedAt = c.S.Now()
 	byID := map[uint16][]*OpRecord{}
